@@ -1182,7 +1182,7 @@ func init() {
 		name := n
 		reg(name, func(fr *frame, a []value) value {
 			if fr.i.trace != nil {
-				fr.i.trace.syncEvent(fr.i, name, a)
+				fr.i.trace.syncEvent(name, a[0], 1)
 			}
 			return nil
 		})
@@ -1222,18 +1222,47 @@ func init() {
 	}
 	reg("sort.Slice", sortSlice(false))
 	reg("sort.SliceStable", sortSlice(true))
-	reg("runtime.NumCPU", func(fr *frame, a []value) value { return 4 })
+	reg("runtime.NumCPU", func(fr *frame, a []value) value {
+		if fr.i.numCPU > 0 {
+			return fr.i.numCPU
+		}
+		return 4
+	})
+	reg(pkgPrefix+"verifSetNumCPU", func(fr *frame, a []value) value {
+		fr.i.numCPU = int(asInt64(a[0]))
+		return nil
+	})
+	reg(pkgPrefix+"verifTraceStart", func(fr *frame, a []value) value {
+		fr.i.trace = newTraceState()
+		return nil
+	})
+	reg(pkgPrefix+"verifTraceEvent", func(fr *frame, a []value) value {
+		if fr.i.trace != nil {
+			fr.i.trace.syncEvent("user:"+mustString(a[0], "verifTraceEvent"), nil, 1)
+		}
+		return nil
+	})
+	reg(pkgPrefix+"verifScheduleCheck", func(fr *frame, a []value) value {
+		fr.i.scheduleCheck(int(asInt64(a[0])))
+		return nil
+	})
 	reg("context.Background", func(fr *frame, a []value) value { return iface{} })
-	reg("golang.org/x/sync/semaphore.NewWeighted", func(fr *frame, a []value) value { return nativePtr("semaphore") })
+	reg("golang.org/x/sync/semaphore.NewWeighted", func(fr *frame, a []value) value {
+		p := nativePtr("semaphore")
+		if fr.i.trace != nil {
+			fr.i.trace.semCap[p] = asInt64(a[0])
+		}
+		return p
+	})
 	reg("(*golang.org/x/sync/semaphore.Weighted).Acquire", func(fr *frame, a []value) value {
 		if fr.i.trace != nil {
-			fr.i.trace.syncEvent(fr.i, "sem.Acquire", a)
+			fr.i.trace.syncEvent("sem.Acquire", a[0], asInt64(a[2]))
 		}
 		return iface{}
 	})
 	reg("(*golang.org/x/sync/semaphore.Weighted).Release", func(fr *frame, a []value) value {
 		if fr.i.trace != nil {
-			fr.i.trace.syncEvent(fr.i, "sem.Release", a)
+			fr.i.trace.syncEvent("sem.Release", a[0], asInt64(a[1]))
 		}
 		return nil
 	})
@@ -1241,7 +1270,11 @@ func init() {
 		name := "(*sync.WaitGroup)." + n
 		reg(name, func(fr *frame, a []value) value {
 			if fr.i.trace != nil {
-				fr.i.trace.syncEvent(fr.i, name, a)
+				n := int64(1)
+				if len(a) > 1 {
+					n = asInt64(a[1])
+				}
+				fr.i.trace.syncEvent(name, a[0], n)
 			}
 			return nil
 		})
@@ -1251,7 +1284,7 @@ func init() {
 	reg("(*golang.org/x/sync/errgroup.Group).Go", func(fr *frame, a []value) value {
 		i := fr.i
 		if i.trace != nil {
-			i.trace.spawn(i, fr, a[1], nil)
+			i.trace.spawn(i, fr, a[0], a[1], nil)
 			return nil
 		}
 		r := call(i, fr, 0, a[1], nil)
@@ -1266,6 +1299,9 @@ func init() {
 		return nil
 	})
 	reg("(*golang.org/x/sync/errgroup.Group).Wait", func(fr *frame, a []value) value {
+		if fr.i.trace != nil {
+			fr.i.trace.syncEvent("eg.Wait", a[0], 1)
+		}
 		if e, ok := fr.i.egErr[a[0].(*value)]; ok {
 			return e
 		}
